@@ -244,26 +244,7 @@ func workerMain(prop, tier, outPath string) {
 	ex := &Explorer{Property: prop, Tier: tier, Stats: newStats(), current: &current, progress: &progress}
 	ex.deadline = func() bool { return time.Since(start).Seconds() > capS }
 	// watchdog: an execution normally takes well under a second; 60 s without progress is a hang.
-	curFile := outPath + ".cur"
-	go func() {
-		last := int64(-1)
-		stuck := 0
-		for {
-			time.Sleep(5 * time.Second)
-			p := progress
-			if p == last && busy {
-				stuck++
-			} else {
-				stuck = 0
-			}
-			last = p
-			if stuck >= 12 {
-				os.WriteFile(curFile, mustJSON(map[string]interface{}{"hang": true, "choices": current}), 0644)
-				fmt.Fprintf(os.Stderr, "watchdog: no progress for 60s at %v\n", current)
-				os.Exit(3)
-			}
-		}
-	}()
+	go watchdog(outPath+".cur", &progress, &current)
 	in := bufio.NewReaderSize(os.Stdin, 1<<20)
 	for {
 		line, err := in.ReadBytes('\n')
@@ -310,6 +291,32 @@ func workerMain(prop, tier, outPath string) {
 }
 
 var busy bool
+
+// watchdog exits the worker when no execution has finished for 60 s while one is in progress.
+// Its reads of the explorer's counters are deliberately unsynchronised (and not instrumented:
+// under -race the worker's own bookkeeping must not appear in the monitor's reports).
+//
+//go:norace
+func watchdog(curFile string, progress *int64, current *[]int) {
+	last := int64(-1)
+	stuck := 0
+	for {
+		time.Sleep(5 * time.Second)
+		p := *progress
+		if p == last && busy {
+			stuck++
+		} else {
+			stuck = 0
+		}
+		last = p
+		if stuck >= 12 {
+			cur := append([]int(nil), (*current)...)
+			os.WriteFile(curFile, mustJSON(map[string]interface{}{"hang": true, "choices": cur}), 0644)
+			fmt.Fprintf(os.Stderr, "watchdog: no progress for 60s at %v\n", cur)
+			os.Exit(3)
+		}
+	}
+}
 
 // ---------------------------------------------------------------------------------------
 // master
